@@ -123,7 +123,10 @@ fn gen_with(tier: &str, seed: u64, heavy_scripts: bool, emit: &mut dyn FnMut(Str
     }
     if big && !heavy_scripts {
         // one packet on each of the 8192 PIDs, ascending and descending
-        for order in 0..2 { let mut all = vec![]; for i in 1..0x2000u16 { let pid = if order == 0 { i } else { 0x2000 - i }; all.extend(rand_packet(&mut rng, pid, 0, 0)); } emit(dmx_case(0, "", &[all])); }
+        // (pushed 61 packets at a time: the model's cost per push is quadratic in the buffer length)
+        for order in 0..2 { let mut chunks: Vec<Vec<u8>> = vec![]; let mut cur = vec![];
+            for i in 1..0x2000u16 { let pid = if order == 0 { i } else { 0x2000 - i }; cur.extend(rand_packet(&mut rng, pid, 0, 0)); if i % 61 == 0 { chunks.push(std::mem::take(&mut cur)); } }
+            chunks.push(cur); emit(dmx_case(0, "", &chunks)); }
     }
     let _ = ts_packet;
 }
